@@ -34,6 +34,10 @@ func blockMsg(id int) *wire.MsgBlock {
 		Timestamp: time.Unix(1700000000, 0)}}
 }
 
+func newBlock(id, n int) *btcutil.Block {
+	return btcutil.NewBlockFromBlockAndBytes(blockMsg(id), blockBytes(id, n))
+}
+
 func blockHash(id int) *chainhash.Hash {
 	h := blockMsg(id).BlockHash()
 	return &h
